@@ -90,6 +90,8 @@ def judge(ctx, spec, text, origin, doc_type=None):
         return
     import collections
     rules = collections.Counter()
+    if doc_type is None:
+        H.prior_partial_use(ctx, m, text, 4)
     m.reset()
     ref = R.ref_load(m, text, doc_type, rules)
     m.reset()
